@@ -71,6 +71,20 @@ def _escapes(expr):
     return out
 
 
+def _no_filter(expr, what):
+    """every comprehension inside expr keeps EVERY entry (no `if` clause): one key in, one key out."""
+    for n in ast.walk(expr):
+        if isinstance(n, (ast.DictComp, ast.ListComp, ast.SetComp, ast.GeneratorExp)):
+            if len(n.generators) != 1 or n.generators[0].ifs:
+                fail(n, f"{what}: a comprehension that filters (or nests) its entries is not an accepted shape")
+
+
+def _plain_to_dict(call):
+    """<x>.to_dict() with no argument: values as nested lists (the model's listify_keyed)."""
+    return (isinstance(call, ast.Call) and isinstance(call.func, ast.Attribute) and call.func.attr == "to_dict"
+            and not call.args and not call.keywords)
+
+
 def _one_escape(expr, node):
     e = _escapes(expr)
     if len(e) > 1:
@@ -248,6 +262,7 @@ class _FromDict:
         if len(ps) != 1:
             fail(node, f"a store must read exactly one key of dct['data'] (found {sorted(ps)})")
         key = ".".join(next(iter(ps))[1:])
+        _no_filter(rhs, "from_dict")
         self.read.append((FIELD[name], key, _one_escape(rhs, node)))
 
     def stmt(self, s):
@@ -376,6 +391,10 @@ def tr_photon(repo):
                 fail(n, "Photon.to_dict entry must store self._array")
             three_d = isinstance(n.value, ast.DictComp)
             if three_d:
+                _no_filter(n.value, "Photon.to_dict")
+                if ast.unparse(n.value.generators[0].iter).replace(" ", "") != "self._array.to_dict().items()" \
+                        or not isinstance(n.value.value, ast.Name):
+                    fail(n, "Photon.to_dict (3-D) must copy every entry of self._array.to_dict()")
                 wesc = _one_escape(n.value, n)
             wk["3d" if three_d else "2d"] = key
     if sorted(wk) != ["2d", "3d"]:
@@ -410,6 +429,7 @@ def tr_photon(repo):
             rk["3d"] = (key, tagname)
             e = set()
             for s in body_src:
+                _no_filter(s, "Photon.from_dict")
                 e |= _escapes(s)
             if len(e) > 1:
                 fail(node, "more than one key.replace")
@@ -444,7 +464,7 @@ def check_asdf(repo):
     if copies != {"version": "version", "type": "type", "properties": "properties", "data": "data"}:
         fail(fa, f"from_asdf must pass version/type/properties/data through (found {copies})")
     src = ast.unparse(fa)
-    if "pd.DataFrame(frame_dct)" not in src.replace(" ", "").replace("pd.DataFrame(frame_dct)", "pd.DataFrame(frame_dct)"):
+    if "pd.DataFrame(" not in src.replace(" ", ""):
         fail(fa, "from_asdf must rebuild the frame with pd.DataFrame(<dict>)")
     ta = find_func(tree, "to_asdf")
     orient = None
@@ -455,6 +475,78 @@ def check_asdf(repo):
                     orient = _s(kw.value)
     if orient != "list":
         fail(ta, "to_asdf must convert the frame with to_dict(orient='list')")
+    # row labels of the cluster table: written as  dct["data"]["charge"][K] = <df>.index.to_list()  and read back as
+    # pd.DataFrame(<dict>, index=dct["data"]["charge"].get(K))  ->  kept;  neither -> not kept;  anything else fails closed
+    wkeys = []
+    for n in ast.walk(ta):
+        if isinstance(n, ast.Assign) and len(n.targets) == 1 and isinstance(n.targets[0], ast.Subscript):
+            src = ast.unparse(n.value).replace(" ", "")
+            if ".index" in src:
+                tgt = ast.unparse(n.targets[0].value).replace(" ", "").replace('"', "'")
+                if tgt != "dct['data']['charge']" or not any(src.endswith(x) for x in (".index.to_list()", ".index.tolist()")) \
+                        and not (src.startswith("list(") and src.endswith(".index)")):
+                    fail(n, "to_asdf: the row labels must be stored as dct['data']['charge'][K] = df.index.to_list()")
+                wkeys.append(_s(n.targets[0].slice))
+    rkeys = []
+    for n in ast.walk(fa):
+        if isinstance(n, ast.Call) and ast.unparse(n.func).replace(" ", "") == "pd.DataFrame":
+            if len(n.args) != 1 or any(kw.arg != "index" for kw in n.keywords):
+                fail(n, "from_asdf: pd.DataFrame(<dict>[, index=...]) expected")
+            for kw in n.keywords:
+                v = kw.value
+                base = None
+                if isinstance(v, ast.Call) and isinstance(v.func, ast.Attribute) and v.func.attr == "get" and len(v.args) == 1:
+                    base, key = v.func.value, _s(v.args[0])
+                elif isinstance(v, ast.Subscript):
+                    base, key = v.value, _s(v.slice)
+                if base is None or ast.unparse(base).replace(" ", "").replace('"', "'") != "dct['data']['charge']":
+                    fail(n, "from_asdf: index= must read dct['data']['charge'][K]")
+                rkeys.append(key)
+    if len(wkeys) > 1 or len(rkeys) > 1 or (wkeys != rkeys):
+        fail(ta, f"ASDF backend: row labels written under {wkeys} but read from {rkeys}")
+    if wkeys and wkeys[0] in ("array", "frame"):
+        fail(ta, "ASDF backend: the row labels overwrite a container key")
+    index_kept = bool(wkeys)
+    # the processed data: {key: value.to_dict() for key, value in <data>.items()} - every group, values as lists
+    comps = [n for n in ast.walk(ta) if isinstance(n, ast.DictComp)]
+    if len(comps) != 1:
+        fail(ta, "to_asdf must convert the processed data with one dict comprehension")
+    c = comps[0]
+    _no_filter(c, "to_asdf")
+    g = c.generators[0]
+    if not (isinstance(g.target, ast.Tuple) and len(g.target.elts) == 2 and all(isinstance(e, ast.Name) for e in g.target.elts)
+            and isinstance(g.iter, ast.Call) and isinstance(g.iter.func, ast.Attribute) and g.iter.func.attr == "items"
+            and not g.iter.args):
+        fail(c, "to_asdf: the comprehension must run over <data>.items()")
+    kname, vname = (e.id for e in g.target.elts)
+    if not (isinstance(c.key, ast.Name) and c.key.id == kname and _plain_to_dict(c.value)
+            and isinstance(c.value.func.value, ast.Name) and c.value.func.value.id == vname):
+        fail(c, "to_asdf: every entry must be  key: value.to_dict()")
+    # Scene.to_dict / Scene.from_dict: every group, values as lists, and back
+    sc = parse(repo, "pyxel/data_structure/scene.py")
+    std = find_func(sc, "to_dict", cls="Scene")
+    comps = [n for n in ast.walk(std) if isinstance(n, ast.DictComp)]
+    if len(comps) != 1:
+        fail(std, "Scene.to_dict must be one dict comprehension")
+    c = comps[0]
+    _no_filter(c, "Scene.to_dict")
+    g = c.generators[0]
+    if not (isinstance(g.target, ast.Tuple) and len(g.target.elts) == 2 and isinstance(c.key, ast.Name)
+            and c.key.id == g.target.elts[0].id and _plain_to_dict(c.value) and isinstance(c.value.func.value, ast.Name)
+            and c.value.func.value.id == g.target.elts[1].id
+            and ast.unparse(g.iter).replace(" ", "") in ("self.data.to_dict().items()", "self._source.to_dict().items()")):
+        fail(c, "Scene.to_dict: every entry must be  key: value.to_dict()  over self.data.to_dict().items()")
+    sfd = find_func(sc, "from_dict", cls="Scene")
+    comps = [n for n in ast.walk(sfd) if isinstance(n, ast.DictComp)]
+    if len(comps) != 1:
+        fail(sfd, "Scene.from_dict must be one dict comprehension")
+    c = comps[0]
+    _no_filter(c, "Scene.from_dict")
+    if not (isinstance(c.key, ast.Name) and isinstance(c.value, ast.Call)
+            and ast.unparse(c.value.func).replace(" ", "") == "xr.Dataset.from_dict" and len(c.value.args) == 1):
+        fail(c, "Scene.from_dict: every entry must be  key: xr.Dataset.from_dict(value)")
+    if "DataTree.from_dict(" not in ast.unparse(sfd):
+        fail(sfd, "Scene.from_dict must rebuild the tree with xr.DataTree.from_dict")
     # Detector.load / save dispatch on the extension
     det = parse(repo, "pyxel/detectors/detector.py")
     for name, callee in (("load", "from_asdf"), ("save", "to_asdf")):
@@ -473,6 +565,7 @@ def check_asdf(repo):
         fn = find_func(det, name, cls="Detector")
         if f".{inner}(" not in ast.unparse(fn) or f"backends.{name}(" not in ast.unparse(fn):
             fail(fn, f"Detector.{name} must go through {inner} and backends.{name}")
+    return index_kept
 
 
 def tr_load(repo):
@@ -513,6 +606,19 @@ def tr_load(repo):
             fail(s, "unsupported assignment in load_detector")
         if isinstance(s, ast.If) and all(isinstance(b, ast.Raise) for b in s.body) and not s.orelse:
             continue
+        if isinstance(s, ast.If) and not s.orelse and new is not None:
+            # the MKID-only container:  if hasattr(new, "_phase") / isinstance(new, MKID):  detector._phase = new._phase
+            t = ast.unparse(s.test).replace(" ", "").replace('"', "'")
+            if t in (f"hasattr({new},'_phase')", f"isinstance({new},MKID)", f"hasattr({det},'_phase')", f"isinstance({det},MKID)"):
+                ok = True
+                for b in s.body:
+                    ok = ok and isinstance(b, ast.Assign) and len(b.targets) == 1 \
+                        and ast.unparse(b.targets[0]).replace(" ", "") == f"{det}._phase" \
+                        and ast.unparse(b.value).replace(" ", "") == f"{new}._phase"
+                if ok and s.body:
+                    assigned.append("FPhase")
+                    continue
+            fail(s, "unsupported conditional in load_detector")
         if isinstance(s, ast.Expr) and isinstance(s.value, ast.Call):
             txt = ast.unparse(s.value).replace(" ", "")
             if new and txt in (f"{det}.__dict__.update({new}.__dict__)", f"vars({det}).update(vars({new}))"):
@@ -521,6 +627,13 @@ def tr_load(repo):
         fail(s, "unsupported statement in load_detector")
     if new is None:
         fail(fn, "load_detector must load a detector from the file")
+    # save_detector: the passed detector is written with Detector.save (= to_dict + backend)
+    sv = find_func(tree, "save_detector")
+    body = body_no_doc(sv)
+    sp = [a.arg for a in sv.args.args]
+    if not (sp[:2] == ["detector", "filename"] and len(body) == 1 and isinstance(body[0], ast.Expr)
+            and ast.unparse(body[0].value).replace(" ", "") in ("detector.save(filename)", "detector.save(filename=filename)")):
+        fail(sv, "save_detector must be detector.save(filename)")
     return rebinds and not assigned, list(dict.fromkeys(assigned))
 
 
@@ -550,7 +663,7 @@ def extract(repo: Path) -> dict:
         out["kinds"][cls] = dict(tag=tag, pw=pw, w=w, guard=guard, pr=pr, r=r)
     out["dispatch"] = tr_dispatch(det_tree)
     out["photon_w"], out["photon_r"], out["photon_esc_w"], out["photon_esc_r"] = tr_photon(repo)
-    check_asdf(repo)
+    out["frame_index_kept"] = check_asdf(repo)
     out["load_rebinds_only"], out["load_assigned"] = tr_load(repo)
     return out
 
@@ -575,6 +688,7 @@ def emit(x: dict) -> str:
             f"  t_photon_w := ({_cstr(x['photon_w'][0])}, {_cstr(x['photon_w'][1])});\n"
             f"  t_photon_r := ({_cstr(x['photon_r'][0])}, {_cstr(x['photon_r'][1])});\n"
             f"  t_photon_esc_w := {_cesc(x['photon_esc_w'])};\n  t_photon_esc_r := {_cesc(x['photon_esc_r'])};\n"
+            f"  t_frame_index_kept := {'true' if x['frame_index_kept'] else 'false'};\n"
             f"  t_load_rebinds_only := {'true' if x['load_rebinds_only'] else 'false'};\n"
             f"  t_load_assigned := {_clist(x['load_assigned'])}\n|}}.\n")
 
@@ -589,20 +703,25 @@ _STD_W = [("photon", "FPhoton", None), ("pixel", "FPixel", None), ("signal", "FS
 _STD_R = [("FPhoton", "photon", None), ("FPixel", "pixel", None), ("FSignal", "signal", None), ("FImage", "image", None),
           ("FData", "data", ("#", "/")), ("FScene", "scene", ("#", "/")), ("FChargeArray", "charge.array", None),
           ("FChargeFrame", "charge.frame", None)]
+_ALL_ASSIGNED = ["FScene", "FPhoton", "FChargeArray", "FChargeFrame", "FPixel", "FSignal", "FImage", "FData", "FPhase"]
 _STD_PW = [("geometry", "PGeometry"), ("environment", "PEnvironment"), ("characteristics", "PCharacteristics")]
 _STD_PR = [(b, a) for a, b in _STD_PW]
 
 
 def _std(tag, phase=False):
     w = list(_STD_W)
+    r = list(_STD_R)
     if phase:
         w.insert(4, ("phase", "FPhase", None))
-    return dict(tag=tag, pw=_STD_PW, w=w, guard=tag, pr=_STD_PR, r=_STD_R)
+        r.insert(4, ("FPhase", "phase", None))
+    return dict(tag=tag, pw=_STD_PW, w=w, guard=tag, pr=_STD_PR, r=r)
 
 
-# the last accepted shape (the unchanged tree); used only to keep a model for the failing-input search
+# the last accepted shape (the tree with C18-F9 / C18-F10 / C18-frame-row-labels repaired); used only to keep a model
+# for the failing-input search
 FALLBACK = emit(dict(
     kinds={"CCD": _std("CCD"), "CMOS": _std("CMOS"), "MKID": _std("MKID", phase=True), "APD": _std("APD")},
     dispatch=[("CCD", "CCD"), ("CMOS", "CMOS"), ("MKID", "MKID"), ("APD", "APD")],
     photon_w=("array_2d", "array_3d"), photon_r=("array_2d", "array_3d"),
-    photon_esc_w=("/", "#"), photon_esc_r=("#", "/"), load_rebinds_only=True, load_assigned=[]))
+    photon_esc_w=("/", "#"), photon_esc_r=("#", "/"), frame_index_kept=True, load_rebinds_only=False,
+    load_assigned=_ALL_ASSIGNED))
